@@ -368,6 +368,8 @@ class C03Counts(Monitor):
                 self.v("minimize(maxfun=N) invoked fun more than N times", maxfun=mf, calls=len(ctx.log))
             if mf is not None and len(ctx.log) == mf:
                 self.cov("minimize_budget_exhausted")
+                if ctx.desc.get("maxiter") is not None:
+                    self.cov("minimize_with_both_limits_whose_maxiter_metaepochs_would_cost_more_than_maxfun")
         if tree is not None:
             for d in self.all_demes(tree):
                 if type(d).__name__ == "LocalDeme" and d.metaepoch_count >= 1 and len(d.history[-1]) == 0:
